@@ -81,7 +81,9 @@ T = {
         "Proved for MemoryStore (9 methods) against the interface contracts with the abstract view (dirs, data, meta) stated as whole-view "
         "equalities - so `operations on one key never affect another` is part of every postcondition: store / store_metadata / remove / makedir "
         "/ contains / is_dir / get_bytes / get_metadata / keys; parent_key / key_name / join_key and the inverse lemma; Store.finalize_metadata "
-        "records key, name, directory flag, size and md5 of exactly the bytes being stored (field-level contract on the same source). The "
+        "records key, name, directory flag, size and md5 of exactly the bytes being stored (field-level contract on the same source); the "
+        "mutators of the generic proxy (ProxyStore.store / store_metadata / remove / makedir) do to the wrapped store exactly what the interface "
+        "says, under the same key. The "
         "directory store, listdir / removedir of the memory store and every proxy composition are explored against the reference model "
         "(all well-formed histories to depth 2-4 over 6 keys, incl. read-modify-write of an entry).",
         "listdir (an image comprehension over split keys) stays undecided in both solvers and is bounded only. hashlib.md5 and Metadata.as_dict "
